@@ -37,6 +37,7 @@ def rule_watford_guard(prog, fixture=False):
         # the comparison may live in the function itself or in a helper it hands the catalogue sector to,
         # with the sector number 2 passed as an argument
         cands = [(top, {})]
+        found_env = {}
         for n in top.walk():
             if is_call(n) and n.get("fn") and n.get("k") == "CallExpr":
                 for t in prog.call_targets(top, n):
@@ -44,6 +45,12 @@ def rule_watford_guard(prog, fixture=False):
                     for p_, a in zip(t.params, call_args(n)):
                         if folded(a) is not None:
                             consts[p_["d"]] = folded(a)
+                        elif not p_.get("w"):
+                            # an array handed on by reference/pointer keeps denoting the caller's array
+                            try:
+                                found_env.setdefault(t.uid, {})[p_["d"]] = ev._pointer(top, a, {}, 0)
+                            except Unsupported:
+                                pass
                     cands.append((t, consts))
         found = None
         for fn, consts in cands:
@@ -58,17 +65,34 @@ def rule_watford_guard(prog, fixture=False):
             r.undecided.append("smells_like_watford: no comparison of a catalogue value with sector 2 found (directly or in a helper)")
             continue
         fn, n, val = found
-        env = {}
-        for v in fn.walk():
-            if v.get("k") == "VarDecl" and v.get("n") == "pos" and v.get("w"):
-                env[v["d"]] = BV.const(8, v["w"])
-        e = strip_all(val)
-        if e.get("k") == "DeclRefExpr":
-            for v in fn.walk():
-                if v.get("k") == "VarDecl" and v.get("d") == e.get("d") and v.get("c"):
-                    e = v["c"][0]
+        env = dict(found_env.get(fn.uid, {}))
+        # first iteration of the enclosing loop: the induction variable takes its initial value, and the
+        # declarations of the loop body that precede the comparison are evaluated in order
+        loop = None
+        for a in fn.ancestors(n):
+            if a.get("k") == "ForStmt":
+                loop = a
+                break
         try:
-            got = ev._expr(fn, e, env, 0)
+            if loop is not None and "init" in loop["parts"]:
+                init = loop["c"][loop["parts"]["init"]]
+                for x in walk(init):
+                    if x.get("k") == "VarDecl" and x.get("c") and x.get("w") and folded(x["c"][0]) is not None:
+                        env[x["d"]] = BV.const(folded(x["c"][0]), x["w"])
+                    elif x.get("k") == "BinaryOperator" and x.get("op") == "=" and folded(x["c"][1]) is not None:
+                        t = strip_all(x["c"][0])
+                        if t.get("k") == "DeclRefExpr" and t.get("w"):
+                            env[t["d"]] = BV.const(folded(x["c"][1]), t["w"])
+                body = loop["c"][loop["parts"]["body"]]
+                for st in (body.get("c", []) if body.get("k") == "CompoundStmt" else []):
+                    if any(x is n for x in walk(st)):
+                        break
+                    if st.get("k") == "DeclStmt":
+                        res = ev._stmt(fn, st, {}, env, 0)
+                        if len(res) != 1:
+                            raise Unsupported("forking declaration")
+                        env = res[0][1]
+            got = ev._expr(fn, val, env, 0)
         except Unsupported as ex:
             r.undecided.append("cannot evaluate the start-sector expression of the Watford guard: %s" % ex)
             continue
